@@ -172,10 +172,9 @@ Qed.
 (* ---- rejection at every nesting depth (ignoreCritical = false) ----
    `noisy_crit sc fuel mi x`: x is an input for model mi in which, after elements that may carry skippable noise at every
    depth, an unrecognised CRITICAL element sits at an element boundary of the model — or, recursively, of a nested model
-   value reached through struct fields and elements of sequences of structs (the bad nested value is the expected next
+   value reached through struct fields, elements of sequences of structs and values of maps of structs (the bad nested value is the expected next
    element of its enclosing model; anything may follow it).  The parser rejects x with ErrUnrecognizedField: the nested
-   parser's error reaches the caller from every depth.  Both readers, any segmentation.  (Values of maps of structs are
-   not covered by this relation.) *)
+   parser's error reaches the caller from every depth.  Both readers, any segmentation. *)
 Theorem unknown_critical_rejected_every_depth : forall sc, schema_wf sc = true ->
   forall fuel mi x, noisy_crit sc fuel mi x -> decode sc mi false x = Err E_CRITICAL.
 Proof. exact decode_noisy_crit. Qed.
